@@ -1,4 +1,5 @@
 import ExprModel.Proofs.OptInRange
+import ExprModel.Proofs.OptReject
 import ExprModel.Opt.ObsEq
 import ExprModel.Gen.Pipeline
 /-
@@ -249,11 +250,11 @@ theorem rangeKd_iff (k : Kind) : rangeKd (.num k) = true ↔ RangeK k := by
   cases k <;> simp [rangeKd, RangeK, Kind.rank]
 
 /-- a literal range becomes the constant with the same elements; only the allocation differs -/
-theorem constRange_equiv (m ma mb : Meta) (lo hi : Int) (st : St) (ha : IntLitOK ma lo) (hb : IntLitOK mb hi)
-    (hsz : inRange .int (hi - lo + 1)) (hs : c.rangeSizeSigned = true → lo ≤ hi + 1) (ctx : Ctx) :
-    RelM (eval c ctx (constRangeRule (.binary m ".." (.int ma lo) (.int mb hi)) st).1)
+theorem constRange_equiv (fl : Flags) (m ma mb : Meta) (lo hi : Int) (st : St) (ha : IntLitOK ma lo) (hb : IntLitOK mb hi)
+    (hsz : fl.constRangeNoOverflow = false → inRange .int (hi - lo + 1)) (hs : c.rangeSizeSigned = true → lo ≤ hi + 1) (ctx : Ctx) :
+    RelM (eval c ctx (constRangeRule fl (.binary m ".." (.int ma lo) (.int mb hi)) st).1)
          (eval c ctx (.binary m ".." (.int ma lo) (.int mb hi))) :=
-  (constRange_sound _ (by simp only [ConstRangeOK]; exact fun _ => ⟨ha, hb, hsz, hs⟩) st).ev ctx
+  (constRange_sound fl _ (by simp only [ConstRangeOK]; exact fun _ => ⟨ha, hb, hsz, hs⟩) st).ev ctx
 
 /-- a ConstExpr call whose compile-time evaluation succeeds is replaced by its result: sound when the
     arguments evaluate to the values passed (#11) and the registered function is the environment's -/
@@ -328,7 +329,7 @@ def GuardOK (c : SCfg) (fl : Flags) (fns : ConstFns) : Pass → Node → Prop
   | .fold, N => FoldOKf fl N
   | .constExpr, N => ConstExprOK c fl fns N
   | .inRange, N => InRangeOK c fl N
-  | .constRange, N => ConstRangeOK c N
+  | .constRange, N => ConstRangeOK c fl N
 
 /-- the optimizer restricted to rewrite sites that satisfy their guards produces a tree that simulates
     the original one -/
@@ -346,14 +347,14 @@ theorem optimizeWith_sim (fl : Flags) (fns : ConstFns) (g : Guard)
       (guarded_sim g .fold _ (fun N st hN => fold_sound_f fl c.world N (hg _ _ hN) st)) _ _ _ (s1.re hn) h2
     have s12 := s2.trans s1
     have tail : ∀ n3, Sim c n3 n →
-        Sim c (walk fl.walkSliceNode (guarded g .constRange constRangeRule)
+        Sim c (walk fl.walkSliceNode (guarded g .constRange (constRangeRule fl))
           (walk fl.walkSliceNode (guarded g .inRange (inRangeRule fl)) n3 {}).1 {}).1 n := by
       intro n3 s123
       have s4 := walk_sim (c := c) fl.walkSliceNode (guarded g .inRange (inRangeRule fl))
         (guarded_sim g .inRange _ (fun N st hN => inRange_sound fl N (hg _ _ hN) st)) n3 (s123.re hn) {}
       have s1234 := s4.trans s123
-      have s5 := walk_sim (c := c) fl.walkSliceNode (guarded g .constRange constRangeRule)
-        (guarded_sim g .constRange _ (fun N st hN => constRange_sound N (hg _ _ hN) st)) _ (s1234.re hn) {}
+      have s5 := walk_sim (c := c) fl.walkSliceNode (guarded g .constRange (constRangeRule fl))
+        (guarded_sim g .constRange _ (fun N st hN => constRange_sound fl N (hg _ _ hN) st)) _ (s1234.re hn) {}
       exact s5.trans s1234
     split at h
     · cases h; exact tail n2 s12
@@ -445,7 +446,7 @@ theorem fold_divzero_location (fl : Flags) (w : World) (m ma mb : Meta) (op : St
 
 /-- `in_array`, `in_range` and `const_range` never reject -/
 theorem other_passes_never_reject (fl : Flags) (N : Node) (st : St) :
-    (inArrayRule fl N st).2 = st ∧ (inRangeRule fl N st).2 = st ∧ (constRangeRule N st).2 = st := by
+    (inArrayRule fl N st).2 = st ∧ (inRangeRule fl N st).2 = st ∧ (constRangeRule fl N st).2 = st := by
   refine ⟨?_, ?_, ?_⟩
   · unfold inArrayRule
     split
@@ -465,8 +466,12 @@ theorem other_passes_never_reject (fl : Flags) (N : Node) (st : St) :
     · split
       · simp only []
         split
-        · rfl
-        · split <;> rfl
+        · split
+          · rfl
+          · split <;> rfl
+        · split
+          · rfl
+          · split <;> rfl
       · rfl
     · rfl
 
@@ -504,49 +509,52 @@ def optimize_transparent_goal (fl : Flags) : Prop :=
   ∀ (c : SCfg) (fns : ConstFns) (n n' : Node) (cast : Option Nat), reOK n = true → FnsOfEnv c fns →
     optimize fl fns c.world n = .ok n' → ObsRes (Spec.run c cast n').1 (Spec.run c cast n).1
 
-mutual
-def subnodes : Node → List Node
-  | .unary m op x => .unary m op x :: subnodes x
-  | .binary m op l r => .binary m op l r :: (subnodes l ++ subnodes r)
-  | .matches m h l r => .matches m h l r :: (subnodes l ++ subnodes r)
-  | .prop m x a b => .prop m x a b :: subnodes x
-  | .index m x i => .index m x i :: (subnodes x ++ subnodes i)
-  | .slice m x f t => .slice m x f t :: (subnodes x ++ subnodesOpt f ++ subnodesOpt t)
-  | .method m x a args b => .method m x a args b :: (subnodes x ++ subnodesList args)
-  | .func m a args b => .func m a args b :: subnodesList args
-  | .builtin m a args => .builtin m a args :: subnodesList args
-  | .closure m x => .closure m x :: subnodes x
-  | .cond m a b d => .cond m a b d :: (subnodes a ++ subnodes b ++ subnodes d)
-  | .array m xs => .array m xs :: subnodesList xs
-  | .map m xs => .map m xs :: subnodesList xs
-  | .pair m k v => .pair m k v :: (subnodes k ++ subnodes v)
-  | n => [n]
-def subnodesList : List Node → List Node
-  | [] => []
-  | n :: ns => subnodes n ++ subnodesList ns
-def subnodesOpt : Option Node → List Node
-  | none => []
-  | some n => subnodes n
-end
+/-- the tree contains an integer `/` or `%` whose operands are constant integer expressions (literals, unary
+    signs, `+ - * / %`, evaluated in Go's `int`) and whose divisor is zero — `OptProofs.dz`, defined on the
+    tree as written, before any folding -/
+def HasConstDivZero (n : Node) : Prop := dz n = true
 
-/-- a constant integer expression and its value in Go's `int` arithmetic -/
-inductive ConstInt : Node → Int → Prop
-  | lit (m v) : ConstInt (.int m v) v
-  | neg {x v} (m) : ConstInt x v → ConstInt (.unary m "-" x) (wrap .int (-v))
-  | pos {x v} (m) : ConstInt x v → ConstInt (.unary m "+" x) v
-  | add {l r a b} (m) : ConstInt l a → ConstInt r b → ConstInt (.binary m "+" l r) (wrap .int (a + b))
-  | sub {l r a b} (m) : ConstInt l a → ConstInt r b → ConstInt (.binary m "-" l r) (wrap .int (a - b))
-  | mul {l r a b} (m) : ConstInt l a → ConstInt r b → ConstInt (.binary m "*" l r) (wrap .int (a * b))
-  | div {l r a b} (m) : ConstInt l a → ConstInt r b → b ≠ 0 → ConstInt (.binary m "/" l r) (wrap .int (Int.tdiv a b))
-  | mod {l r a b} (m) : ConstInt l a → ConstInt r b → b ≠ 0 → ConstInt (.binary m "%" l r) (wrap .int (Int.tmod a b))
+example : HasConstDivZero (.binary {} "+" (.ident {} "x" false) (.binary {} "%" (.int {} 7) (.binary {} "-" (.int {} 1) (.int {} 1)))) := by
+  show dz _ = true; rfl
 
-def HasConstDivZero (n : Node) : Prop :=
-  ∃ m op l r a, .binary m op l r ∈ subnodes n ∧ (op = "/" ∨ op = "%") ∧ ConstInt l a ∧ ConstInt r 0
+/-- **The only trees the optimizer rejects**: if `optimizer.Optimize` fails, the tree contains a constant integer
+    division or modulo by zero, or the compile-time call of a ConstExpr function on literal arguments failed
+    (for every setting of the switches, every world, with or without ConstExpr functions). -/
+theorem optimize_rejects_only_divzero (fl : Flags) (fns : ConstFns) (w : World) (n : Node) (l : Loc)
+    (h : optimize fl fns w n = .error l) :
+    HasConstDivZero n ∨
+    ∃ name args id vs e, fns.lookup name = some id ∧ constArgs fl args = some vs ∧ w.call id vs = .error e := by
+  unfold optimize optimizeWith at h
+  simp only [bind, Except.bind, pure, Except.pure] at h
+  have hin := walk_back fl.walkSliceNode (guarded Guard.all .inArray (inArrayRule fl))
+    (guarded_backward _ _ _ (inArray_backward fl))
+    (guarded_err _ _ _ _ (fun N st hh => absurd (by rw [inArray_no_err]) hh)) n {}
+  have hfold := repeatPass_back fl.walkSliceNode (guarded Guard.all .fold (foldRule fl w))
+    (guarded_backward _ _ _ (fold_backward fl w)) (guarded_err _ _ _ _ (fold_err_dzHere fl w)) foldWalks
+    (walk fl.walkSliceNode (guarded Guard.all .inArray (inArrayRule fl)) n {}).1
+  split at h
+  · rename_i l' h2
+    exact .inl (hin.2.1 (hfold.1 _ h2))
+  · rename_i n2 h2
+    split at h
+    · cases h
+    · split at h
+      · rename_i l' h3
+        right
+        obtain ⟨N, st, he⟩ := repeatPass_errAt _ _ _ _ _ h3
+        have he' : (constExprRule fl fns w N st).2.err ≠ st.err := by
+          simp only [guarded, Guard.all, if_true] at he; exact he
+        obtain ⟨m, name, args, fast, id, vs, e, _, h1, h2', h3'⟩ := constExpr_rejects_only_failed_call fl fns w N st he'
+        exact ⟨name, args, id, vs, e, h1, h2', h3'⟩
+      · cases h
 
-/-- "the only expression the optimizer may reject … is one containing a constant integer division or
-    modulo by zero" (without ConstExpr functions; with them a failing call may also be rejected) -/
-def optimize_rejects_only_divzero_goal (fl : Flags) : Prop :=
-  ∀ (w : World) (n : Node) (l : Loc), optimize fl [] w n = .error l → HasConstDivZero n
+/-- without ConstExpr functions: "the only expression the optimizer may reject … is one containing a constant
+    integer division or modulo by zero" -/
+theorem optimize_rejects_only_divzero_plain (fl : Flags) (w : World) (n : Node) (l : Loc)
+    (h : optimize fl [] w n = .error l) : HasConstDivZero n := by
+  rcases optimize_rejects_only_divzero fl [] w n l h with h | ⟨_, _, _, _, _, h1, _⟩
+  · exact h
+  · cases h1
 
 /-! ## Witnesses of the reproduced deviations (model level; harness/c02.go exhibits each on the real code) -/
 
@@ -680,6 +688,22 @@ theorem budget_witness :
     (Spec.run (cfg (.map []) 10) none t13).1 = .error .budget :=
   ⟨⟨_, rfl, rfl⟩, ⟨_, rfl, rfl⟩, rfl⟩
 
+/-- `len(0..9223372036854775807)` -/
+def t14 : Node := .builtin (mI 0) "len" [.binary (mA 5) ".." (.int (mI 4) 0) (.int (mI 7) 9223372036854775807)]
+
+/-- the code as it is, with the proposed repair of const_range.go in place -/
+def Flags.next : Flags := { Flags.asIs with constRangeNoOverflow := true }
+
+/-- (c02:const-range-size-overflow) `size := max - min + 1` wraps below 1 for a range of 2^63 elements, and
+    const_range.go folds it to the EMPTY constant: `len(0..9223372036854775807)` is 0 when optimised, while the
+    range itself exceeds every budget.  With emptiness decided by `max < min` the fold is skipped.
+    (On the real VM the deviation is masked as long as OpRange computes its size with the same overflow.) -/
+theorem const_range_overflow_witness :
+    (∃ n', optimize Flags.asIs [] w0 t14 = .ok n' ∧ (Spec.run (cfg (.map [])) none n').1 = .ok (.int .int 0)) ∧
+    (Spec.run (cfg (.map [])) none t14).1 = .error .budget ∧
+    optimize Flags.next [] w0 t14 = .ok t14 :=
+  ⟨⟨_, rfl, rfl⟩, rfl, rfl⟩
+
 theorem fnsOfEnv_nil (c : SCfg) : FnsOfEnv c [] := by intro _ _ h; cases h
 
 /-- the full-strength statement is false of the code as it is … -/
@@ -792,7 +816,7 @@ def GuardNow (c : SCfg) (fns : ConstFns) : Pass → Node → Prop
     ∀ id, fns.lookup name = some id → ∀ vs, callMember c.world c.env name vs = c.world.call id vs
   | .inRange, .binary _ _ l (.binary _ _ (.int mf a) (.int mt b)) =>
     IntLitOK mf a ∧ IntLitOK mt b ∧ KindSound c l ∧ (c.rangeSizeSigned = true → a ≤ b + 1)
-  | .constRange, N => ConstRangeOK c N
+  | .constRange, N => ConstRangeOK c Flags.asIs N
   | _, _ => True
 
 /-- for the code as it is now the fold guard asks nothing about the annotation of the literals of `+ - * /` -/
